@@ -44,6 +44,14 @@ CHECKS["C19"] = {
             "scaling (degree 0). Does not decide backward stability or residual bounds numerically.",
     "note": "vnaconv_* callers are exempt (documented non-finite output); degree analysis covers _vnacommon_lu only",
 }
+CHECKS["C10"] = {
+    "technique": "static interprocedural data-dependence classification (MIN/MAX end of a frequency vector) of every slack-bound comparison",
+    "text": "Decides for all comparisons against a (1 +/- VNACAL_F_EXTRAPOLATION)*X bound (standards, noise vectors, apply, parameter values) that the slack loosens "
+            "the test in the right direction, that like ends are compared (first element with first, last with last, followed through locals, parameters, "
+            "out-parameters and bound-returning helpers) and that each range check tests both ends. Does not decide interpolation exactness at knots, rational or "
+            "linear reproduction or order independence (values, not shape).",
+    "note": "first/last element subscripts [0] and [n-1] are the MIN/MAX sources; constants such as 0.0/INFINITY are neutral",
+}
 NOT_APPLICABLE = {
     "C14": "YAML fidelity of arbitrary scalars/keys depends on libyaml's emitter/scanner behaviour on run-time strings; no clause is visible in libvna's source shape (DESIGN.md section 3, C14)",
 }
